@@ -181,8 +181,54 @@ def _fn_ast():
     return ast.parse(src).body[0], src
 
 
+def entry_point_names():
+    """Names obtained through every entry point, each request issued twice on equal inputs, in both engine kinds.
+    -> list of (label, prefix, name1, name2)"""
+    import sqlalchemy as sa
+    from lsst.daf.relation import LeafRelation, iteration, sql
+    from ..prog import Tag
+
+    a, b = Tag("a"), Tag("b")
+    it, sq = iteration.Engine(name="it"), sql.Engine(name="sq")
+    out = []
+
+    def it_leaf(name=""):
+        return it.make_leaf({a, b}, iteration.RowSequence([{a: 1, b: 2}, {a: 1, b: 2}]), name=name)
+
+    def sq_leaf(name=""):
+        md = sa.MetaData()
+        t = sa.Table("t", md, sa.Column("a", sa.Integer), sa.Column("b", sa.Integer))
+        return sq.make_leaf({a, b}, sql.Payload(t, columns_available={a: t.c.a, b: t.c.b}), name=name)
+
+    out.append(("iteration leaf", "leaf", it_leaf().name, it_leaf().name))
+    out.append(("sql leaf", "leaf", sq_leaf().skip_to.name, sq_leaf().skip_to.name))
+    L = it_leaf("named")
+    S = sq_leaf("named_sql")
+    cases = {
+        "iteration dedup.materialized()": lambda: L.without_duplicates().materialized(),
+        "iteration transfer.materialized()": lambda: L.transferred_to(iteration.Engine(name="it2")).materialized(),
+        "sql upload of a leaf .materialized()": lambda: L.transferred_to(sq).materialized(),
+        "sql upload of a leaf, prefix": lambda: L.transferred_to(sq).materialized(name_prefix="upload"),
+        "sql upload of an operation .materialized()": lambda: L.without_duplicates().transferred_to(sq).materialized(),
+        "sql dedup.materialized()": lambda: S.without_duplicates().materialized(),
+        "sql sliced .materialized(), win prefix": lambda: S.sorted([])[0:1].materialized(name_prefix="win"),
+        "download .materialized()": lambda: S.transferred_to(it).materialized(),
+    }
+    from lsst.daf.relation import Materialization
+
+    def mat_name(rel):
+        while not isinstance(rel, Materialization):
+            rel = rel.target
+        return rel.name
+
+    for label, mk in cases.items():
+        pfx = "upload" if "upload" in label and "prefix" in label else "win" if "win prefix" in label else "materialization"
+        out.append((label, pfx, mat_name(mk()), mat_name(mk())))
+    return out
+
+
 def shapes(tier, seed):
-    return ["translator-validation", "distinct", "prefix", "reachability-twin"] + (["second-solver"] if tier == "thorough" else [])
+    return ["translator-validation", "entry-points", "distinct", "prefix", "reachability-twin"] + (["second-solver"] if tier == "thorough" else [])
 
 
 def _solver():
@@ -326,6 +372,46 @@ def run_shape(shape, tier):
         else:
             out["status"] = HOLDS
         return out
+    if shape == "entry-points":
+        # every name an entry point hands out must come from get_relation_name (sentinel test), and two equal requests
+        # must give different names (concrete replay of the uniqueness claim at the entry points)
+        import lsst.daf.relation._engine as engmod
+        from lsst.daf.relation import GenericConcreteEngine
+
+        problems = []
+        names = entry_point_names()
+        for label, pfx, n1, n2 in names:
+            if n1 == n2:
+                problems.append(("entry-point-collision", f"{label}: two equal requests both got {n1!r}"))
+            if not (n1.startswith(pfx) and n2.startswith(pfx)):
+                problems.append(("entry-point-prefix", f"{label}: {n1!r} does not start with {pfx!r}"))
+        counter = {"n": 0}
+        orig = GenericConcreteEngine.get_relation_name
+
+        def sentinel(self, prefix="leaf"):
+            counter["n"] += 1
+            return f"{prefix}#SENTINEL{counter['n']}"
+
+        GenericConcreteEngine.get_relation_name = sentinel
+        try:
+            for label, pfx, n1, n2 in entry_point_names():
+                if "#SENTINEL" not in n1 or "#SENTINEL" not in n2:
+                    problems.append(("entry-point-bypasses-get_relation_name", f"{label}: {n1!r}"))
+        finally:
+            GenericConcreteEngine.get_relation_name = orig
+        out["obligations"] = 3 * len(names)
+        out["discharged"] = out["obligations"] - len(problems)
+        out["sample"] = {"entry points": [n[0] for n in names], "example": names[3][2]}
+        collisions = [p for p in problems if p[0] != "entry-point-bypasses-get_relation_name"]
+        if collisions:
+            out["status"] = VIOLATION
+            out["violations"] = [{"site": collisions[0][0], "summary": collisions[0][1], "replay": {"kind": "entry-points"}}]
+        elif problems:
+            # a name not taken from get_relation_name is outside the encoded function: the uniqueness VC says nothing about it
+            out["status"], out["detail"] = INCONCLUSIVE, problems[0][1][:200]
+        else:
+            out["status"] = HOLDS
+        return out
     if shape in ("distinct", "reachability-twin", "second-solver"):
         s, (c1, c2, n1, n2) = _distinct_query()
         if shape == "reachability-twin":
@@ -438,6 +524,9 @@ def run_shape(shape, tier):
 
 def replay(v):
     r = v["replay"]
+    if r["kind"] == "entry-points":
+        bad = [(l, a, b) for l, p, a, b in entry_point_names() if a == b or not a.startswith(p)]
+        return bool(bad), f"entry points with colliding / unprefixed names: {bad[:2]}"
     if r["kind"] == "prefix":
         from lsst.daf.relation import iteration
         name = iteration.Engine(name="p").get_relation_name(r["prefix"])
